@@ -224,6 +224,14 @@ class Ref(object):
             "%s:%s" % ("none" if k is None else k, brack(sorted(hx(p) for p in v))) for k, v in sorted(created.items(), key=lambda kv: (kv[0] is None, kv[0] or 0))))
 
     def exec_write(self, w, hint_pages=None):
+        try:
+            return self._exec_write(w, hint_pages)
+        except KeyError:
+            # a flagged anchor without its rule in RAM (reopened without re-supplying it): the request aborts where
+            # the code does, earlier effects stay
+            return "err other KeyError"
+
+    def _exec_write(self, w, hint_pages=None):
         op = w[0]
         if op == "init":
             self.reset(w[2], {unx(a): r for a, r in (x.split("=") for x in split_list(w[3]))}, w[4])
